@@ -91,6 +91,24 @@ class _Break(Exception):
     pass
 
 
+class _BodyControl(Exception):
+    """return / break / continue leaving the body of a `with <generator context manager>`: it travels through the generator's frame like the
+    GeneratorExit that close() throws at the yield (finally blocks run, `except Exception` does not see it) and is re-raised as itself outside."""
+
+    def __init__(self, inner: Exception):
+        self.inner = inner
+
+
+class GenCM(V):
+    """the object a function decorated with @contextmanager returns: nothing of its body has run yet."""
+
+    def __init__(self, fn, self_val, args, kwargs, closure, bound_cls):
+        self.fn, self.self_val, self.args, self.kwargs, self.closure, self.bound_cls = fn, self_val, args, kwargs, closure, bound_cls
+
+    def key(self):
+        return f"contextmanager:{self.fn.qualname}({','.join(a.key() for a in self.args)})"
+
+
 class _Continue(Exception):
     pass
 
@@ -136,6 +154,7 @@ class Frame:
         self.closure = closure
         self.cls = cls
         self.self_val = self_val
+        self.yield_action = None  # set while the body of a @contextmanager generator is run for a `with` statement
 
     def lookup(self, name: str):
         f = self
@@ -490,6 +509,13 @@ class Interp:
                 d.open = True
                 d.items[f"<{kv.key()}>"] = vv
         return d
+
+    def e_Yield(self, node, frame):
+        if frame.yield_action is None:
+            raise AnalysisError(f"unsupported expression Yield at {self.site(node)}")
+        value = self.eval(node.value, frame) if node.value is not None else NONE
+        frame.yield_action(value)
+        return NONE
 
     def e_Lambda(self, node, frame):
         fi = self.func_by_node.get(id(node))
@@ -1019,9 +1045,15 @@ class Interp:
             return Unknown(f"stub:{fn.qualname}")
         return self.call_function(fn, fv.self_val, args, kwargs, fv.closure, fv.bound_cls, node)
 
-    def call_function(self, fn: FuncInfo, self_val, args, kwargs, closure, bound_cls, node) -> V:
+    @staticmethod
+    def _is_generator_cm(fn: FuncInfo) -> bool:
+        return not isinstance(fn.node, ast.Lambda) and any(ast.unparse(d).split(".")[-1] == "contextmanager" for d in fn.node.decorator_list)
+
+    def call_function(self, fn: FuncInfo, self_val, args, kwargs, closure, bound_cls, node, yield_action=None) -> V:
         if self.depth >= self.cfg.max_depth:
             raise AnalysisError(f"call depth exceeded at {fn.fq}")
+        if yield_action is None and self._is_generator_cm(fn):
+            return GenCM(fn, self_val, list(args), dict(kwargs), closure, bound_cls)
         a = fn.node.args
         params = [p.arg for p in a.posonlyargs + a.args]
         locals_: dict[str, V] = {}
@@ -1059,6 +1091,7 @@ class Interp:
             cls = closure.cls
         sv = self_val if fn.cls is not None else (closure.self_val if closure is not None else None)
         frame = Frame(fn, fn.module, locals_, closure=closure, cls=cls, self_val=sv)
+        frame.yield_action = yield_action
         self.depth += 1
         self.site_stack.append(f"{fn.module.relpath}:{fn.qualname}")
         try:
@@ -1660,6 +1693,29 @@ class Interp:
             return
         item = items[0]
         ctx = self.eval(item.context_expr, frame)
+        if isinstance(ctx, GenCM):
+            # the generator's body is run in place; its `yield` runs the rest of this with statement. What the body raises comes out of the yield
+            # expression (contextmanager throws it in there), so `try/finally` and `try/except` around the yield behave as they do at run time - and a
+            # bare `yield` followed by clean-up code does not run that code when the body raises.
+            state = {"yielded": 0}
+
+            def body_action(value, item=item, items=items, frame=frame, st=st, state=state):
+                state["yielded"] += 1
+                if state["yielded"] > 1:
+                    raise AnalysisError(f"generator context manager yields twice at {self.site(st)}")
+                if item.optional_vars is not None:
+                    self.assign(item.optional_vars, value, frame, st)
+                try:
+                    self._with_items(st, items[1:], frame)
+                except (_Return, _Break, _Continue) as c:
+                    raise _BodyControl(c) from None
+            try:
+                self.call_function(ctx.fn, ctx.self_val, ctx.args, ctx.kwargs, ctx.closure, ctx.bound_cls, st, yield_action=body_action)
+            except _BodyControl as b:
+                raise b.inner from None
+            if not state["yielded"]:
+                raise AnalysisError(f"generator context manager did not yield at {self.site(st)}")
+            return
         entered: V = ctx
         exit_action = None
         if isinstance(ctx, Obj) and ctx.cls is not None and ctx.cls.find_method("__enter__"):
@@ -1692,7 +1748,7 @@ class Interp:
         except _Raise as r:
             exit_action(r.exc)
             raise
-        except (_Return, _Break, _Continue):
+        except (_Return, _Break, _Continue, _BodyControl):
             exit_action(None)
             raise
         else:
@@ -1720,7 +1776,7 @@ class Interp:
                     self.exc_stack.pop()
             else:
                 self.exec_block(st.orelse, frame)
-        except (_Raise, _Return, _Break, _Continue):
+        except (_Raise, _Return, _Break, _Continue, _BodyControl):
             if st.finalbody:
                 self.exec_block(st.finalbody, frame)
             raise
